@@ -95,6 +95,28 @@ where
     FrameFn: FnOnce(&str, u32) -> T2 + Sync,
     T2: Future<Output = Result<FrameIO, Error>>,
 {
+    let ret = h11c_handshake_inner(ctx.clone(), queue, create_frames).await;
+    // the connection ends here: record it as failed, it would otherwise be logged without any
+    // terminal state or error text
+    let failure = ret
+        .as_ref()
+        .err()
+        .map(|e| format!("handshake failed: {} cause: {:?}", e, e.cause));
+    if let Some(msg) = failure {
+        ctx.on_error(easy_error::err_msg(msg)).await;
+    }
+    ret
+}
+
+async fn h11c_handshake_inner<FrameFn, T2>(
+    ctx: ContextRef,
+    queue: Sender<ContextRef>,
+    create_frames: FrameFn,
+) -> Result<(), Error>
+where
+    FrameFn: FnOnce(&str, u32) -> T2 + Sync,
+    T2: Future<Output = Result<FrameIO, Error>>,
+{
     let mut ctx_lock = ctx.write().await;
     let socket = ctx_lock.borrow_client_stream().unwrap();
     let request = HttpRequest::read_from(socket).await?;
